@@ -113,9 +113,24 @@ func (e *Exec) modOfInstr(in ssa.Instruction, depth int, ms *modSet) {
 			}
 			return
 		}
-		if callee == nil && !c.IsInvoke() && e.fc != nil && (e.fc.DefaultCallback == "app" || e.fc.DefaultCallback == "pure") {
+		cbMode := ""
+		if callee == nil && !c.IsInvoke() && e.fc != nil {
+			cbMode = e.fc.DefaultCallback
+			if p, ok := c.Value.(*ssa.Parameter); ok {
+				for _, cb := range e.fc.Callbacks {
+					if f := strings.Fields(cb); len(f) == 2 && f[0] == p.Name() {
+						cbMode = f[1]
+					}
+				}
+			}
+		}
+		if cbMode == "app" || cbMode == "pure" {
 			// declared callback: no effect on library heap; ghosts the function may modify are havocked
-			if e.fc.DefaultCallback == "app" {
+			if cbMode == "app" {
+				// the call trace itself is extended by every handler invocation
+				for _, g := range []string{"callN", "callAt", "callRet"} {
+					ms.ghosts[g] = true
+				}
 				for _, m := range e.fc.Modifies {
 					if _, ok := e.P.CS.Ghosts[strings.TrimSpace(m)]; ok && !e.isEpilogueTarget(strings.TrimSpace(m)) {
 						ms.ghosts[strings.TrimSpace(m)] = true
@@ -303,6 +318,16 @@ func (e *Exec) checkBackEdge(fr *Frame, li *loopInfo, from *ssa.BasicBlock, st *
 // names bound to the values flowing in from `from`).
 func (e *Exec) loopEnv(fr *Frame, li *loopInfo, st *State, from *ssa.BasicBlock) *Env {
 	env := e.funcEnv(fr, st)
+	// function-level witnesses that make sense without results are usable in loop clauses
+	env.soft = true
+	for _, w := range e.fc.Witness {
+		if w.Kind != "witness" {
+			continue
+		}
+		w := w
+		e.softly(func() { env.vars[w.Name] = e.evalExpr(env, w.Expr) })
+	}
+	env.soft = false
 	for _, in := range li.header.Instrs {
 		phi, ok := in.(*ssa.Phi)
 		if !ok {
